@@ -380,13 +380,20 @@ where
         index: &crai::Index,
     ) -> io::Result<impl Stream<Item = io::Result<sam::alignment::RecordBuf>> + use<'r, 'h, R>>
     {
+        use futures::{StreamExt, stream};
+
         let offset = index
             .iter()
             .find(|record| record.reference_sequence_id().is_none())
-            .map(|record| SeekFrom::Start(record.offset()))
-            .unwrap_or(SeekFrom::End(0));
+            .map(|record| record.offset());
 
-        self.get_mut().seek(offset).await?;
+        // Without an index record for unplaced records, there is nothing to read. (Seeking to the
+        // end of the file would skip the EOF container and make the record reader fail.)
+        let Some(offset) = offset else {
+            return Ok(stream::empty().left_stream());
+        };
+
+        self.get_mut().seek(SeekFrom::Start(offset)).await?;
 
         Ok(Box::pin(self.records(header).try_filter_map(
             |record| async {
@@ -396,6 +403,7 @@ where
                     Ok(None)
                 }
             },
-        )))
+        ))
+        .right_stream())
     }
 }
